@@ -745,6 +745,11 @@ func gitWarehouses(c *Ctx, op string) {
 		}
 		os.WriteFile(filepath.Join(repo, "d", "f"), []byte(content), 0644)
 		os.WriteFile(filepath.Join(repo, "tool"), []byte("#!/bin/sh\n"), 0755)
+		// names are bytes: Latin-1 and other non-UTF-8 names are tracked and delivered as they are
+		os.WriteFile(filepath.Join(repo, "caf\xe9.txt"), []byte("latin1"), 0644)
+		os.WriteFile(filepath.Join(repo, "caf\xe8.txt"), []byte("latin1 too"), 0644)
+		os.MkdirAll(filepath.Join(repo, "d\xefr"), 0755)
+		os.WriteFile(filepath.Join(repo, "d\xefr", "in\xffer"), []byte("deep"), 0644)
 		gitCmd(repo, "add", "-A")
 		if _, err := gitCmd(repo, "commit", "-q", "-m", name); err != nil {
 			return "", ""
@@ -792,6 +797,14 @@ func gitWarehouses(c *Ctx, op string) {
 			default:
 				if b, e := os.ReadFile(filepath.Join(dst, "d", "f")); e != nil || string(b) != "new content" {
 					c.PropFail("git-content", fmt.Sprintf("unpack with the warehouse list %v delivered d/f = %q", l, b), op)
+				}
+				for n, want := range map[string]string{"caf\xe9.txt": "latin1", "caf\xe8.txt": "latin1 too", "d\xefr/in\xffer": "deep"} {
+					if b, e := os.ReadFile(filepath.Join(dst, n)); e != nil || string(b) != want {
+						c.PropFail("git-missing", fmt.Sprintf("the tracked path %q (a name that is not valid UTF-8) is not delivered as tracked: %v", n, e), op)
+					}
+				}
+				if ents, e := os.ReadDir(dst); e == nil && len(ents) != 5 {
+					c.PropFail("git-extra", fmt.Sprintf("the commit tracks 5 top-level entries, the unpack delivered %d", len(ents)), op)
 				}
 			}
 		}
